@@ -6,6 +6,7 @@
 //! tokenising text), `adjacent` arguments must reject exactly the two-item spellings.
 use crate::conv::*;
 use crate::def::*;
+use crate::explore::*;
 use crate::run::*;
 use crate::sup::*;
 use serde::{Deserialize, Serialize};
@@ -551,6 +552,121 @@ fn mk_names(x: (Option<char>, Option<&str>)) -> Names {
     }
 }
 
+// ------------------------------------------------------------------------------------------
+// one name declared twice: an `adjacent`-restricted argument takes exactly the occurrences whose
+// name and value share one item, whatever the other consumer of the name (a plain argument, or a
+// switch - the documented `--pkg=NAME` / bare `--pkg` idiom) takes and wherever it is written
+// ------------------------------------------------------------------------------------------
+#[derive(Clone, Copy, Debug, Serialize, Deserialize)]
+pub struct Dual {
+    /// 0: (adjacent many, plain many); 1: (adjacent optional, switch); 2: (plain many, adjacent many)
+    pub kind: usize,
+    pub len: usize,
+}
+
+fn dual_opts(d: &Dual) -> Opts {
+    let names = || Names::both('n', "name");
+    let adj = P::Arg { names: names(), ty: Ty::Os, adjacent: true, metavar: "N".into() };
+    let plain = P::Arg { names: names(), ty: Ty::Os, adjacent: false, metavar: "N".into() };
+    let neutral = P::Switch(Names::short('v'));
+    match d.kind {
+        0 => Opts::new(P::Seq(vec![adj.many(), plain.many(), neutral])),
+        1 => Opts::new(P::Seq(vec![adj.opt(), P::Switch(names()), neutral])),
+        _ => Opts::new(P::Seq(vec![neutral, adj.many(), plain.many()])),
+    }
+}
+
+const DUAL_ALPHA: [&str; 8] = ["--name=a", "-n=b", "-nc", "--name=", "--name", "-n", "x", "-v"];
+
+fn dual_model(d: &Dual, argv: &[Tok]) -> Option<Val> {
+    let mut joined = vec![];
+    let mut split = vec![];
+    let mut bare = 0;
+    let mut v = 0;
+    let mut i = 0;
+    while i < argv.len() {
+        let t = argv[i].utf8().unwrap();
+        match t {
+            "--name=a" => joined.push(Val::s("a")),
+            "-n=b" => joined.push(Val::s("b")),
+            "-nc" => joined.push(Val::s("c")),
+            "--name=" => joined.push(Val::s("")),
+            "-v" => v += 1,
+            "--name" | "-n" => {
+                if d.kind == 1 {
+                    bare += 1;
+                } else if argv.get(i + 1).map_or(false, |n| n.0 == b"x") {
+                    split.push(Val::s("x"));
+                    i += 1;
+                } else {
+                    return None;
+                }
+            }
+            _ => return None, // a stray word
+        }
+        i += 1;
+    }
+    if v > 1 {
+        return None;
+    }
+    let vb = Val::B(v == 1);
+    match d.kind {
+        0 => Some(Val::T(vec![Val::L(joined), Val::L(split), vb])),
+        1 => {
+            if joined.len() > 1 || bare > 1 {
+                return None;
+            }
+            let a = match joined.pop() {
+                Some(x) => Val::some(x),
+                None => Val::No,
+            };
+            Some(Val::T(vec![a, Val::B(bare == 1), vb]))
+        }
+        _ => Some(Val::T(vec![vb, Val::L(joined), Val::L(split)])),
+    }
+}
+
+fn run_dual(d: &Dual, unit: &Value, only: Option<&[Tok]>, ctx: &mut Ctx) {
+    let p = match build_checked(&dual_opts(d)) {
+        Ok(p) => p,
+        Err(_) => return,
+    };
+    // `-nc` is ambiguous when `-n` is both a flag and an argument (reported as such): not part
+    // of the idiom's alphabet
+    let alpha: Vec<Tok> = DUAL_ALPHA.iter().filter(|s| !(d.kind == 1 && **s == "-nc")).map(|s| Tok::s(s)).collect();
+    let mut one = |argv: &[Tok], ctx: &mut Ctx| {
+        ctx.begin_case(|| json!({"argv": argv}));
+        ctx.s.evaluations += 1;
+        ctx.s.states += 1;
+        let r = run(&p, argv);
+        let m = dual_model(d, argv);
+        let ok = match (&m, &r) {
+            (Some(v), Outcome::Value(w)) => v == w,
+            (None, Outcome::Stderr(t)) => !t.trim().is_empty(),
+            _ => false,
+        };
+        if ok {
+            if !argv.is_empty() {
+                ctx.s.nontrivial += 1;
+            }
+            ctx.count("shared-name-vectors-judged");
+            return;
+        }
+        let mut sig = BTreeMap::new();
+        sig.insert("family".to_string(), format!("shared-name-{}", d.kind));
+        sig.insert("observed".to_string(), r.class().to_string());
+        ctx.violation(Violation { property: "C02".into(), rule: "adjacent-argument-takes-exactly-the-one-item-spellings".into(), sig, unit: unit.clone(), case: json!({"argv": argv}), expected: match &m { Some(v) => format!("value {:?}", v), None => "stderr failure".into() }, observed: r.brief(), size: argv.len() * 1000 });
+    };
+    if let Some(a) = only {
+        one(a, ctx);
+        return;
+    }
+    tree(&alpha, d.len, &mut |argv| {
+        one(argv, ctx);
+        true
+    });
+}
+
 impl Check for C02 {
     fn id(&self) -> &'static str {
         "C02"
@@ -591,9 +707,26 @@ impl Check for C02 {
                 }
             }
         }
+        // three valued items whose short names are declared in descending order (any lookup
+        // table built from the declarations is unsorted), and in ascending order
+        for order in [["z", "m", "a"], ["a", "m", "z"], ["m", "z", "a"]] {
+            for adjacent in [false, true] {
+                let mk = |c: &str, kind: Kind| Named { names: Names::both(c.chars().next().unwrap(), &format!("{}-long", c)), kind, hidden: false, ty: Ty::Os, adjacent, guarded: false };
+                let l = Level { named: vec![mk(order[0], Kind::ArgMany), mk(order[1], Kind::ArgOpt), mk(order[2], Kind::ArgOpt)], tail: Tail::None, version: None, usage_fallback: false };
+                out.push(serde_json::to_value(Unit { level: l, max_occ: tier.pick(2, 3), values: values_small(), wrap: 0 }).unwrap());
+            }
+        }
+        for kind in 0..3 {
+            out.push(json!({"dual": Dual { kind, len: tier.pick(5, 6) }}));
+        }
         out
     }
     fn run_unit(&self, unit: &Value, ctx: &mut Ctx) {
+        if let Some(d) = unit.get("dual") {
+            let d: Dual = serde_json::from_value(d.clone()).unwrap();
+            run_dual(&d, unit, None, ctx);
+            return;
+        }
         let u: Unit = serde_json::from_value(unit.clone()).unwrap();
         let p = match build_checked(&build_unit(&u)) {
             Ok(p) => p,
@@ -608,6 +741,12 @@ impl Check for C02 {
         }
     }
     fn replay(&self, unit: &Value, case: &Value, ctx: &mut Ctx) {
+        if let Some(d) = unit.get("dual") {
+            let d: Dual = serde_json::from_value(d.clone()).unwrap();
+            let argv: Vec<Tok> = serde_json::from_value(case["argv"].clone()).unwrap_or_default();
+            run_dual(&d, unit, Some(&argv), ctx);
+            return;
+        }
         let u: Unit = serde_json::from_value(unit.clone()).unwrap();
         let sent: Vec<Occ> = serde_json::from_value(case["sentence"].clone()).unwrap_or_default();
         let want: Option<Vec<Tok>> = serde_json::from_value(case["argv"].clone()).ok();
@@ -630,7 +769,7 @@ impl Check for C02 {
         ctx.s.evaluations += c2.s.evaluations;
     }
     fn rule(&self) -> String {
-        "definitions = {4 name sets incl. 2-, 3- and 4-byte short names and non-ASCII longs} x {OsString, PathBuf, String, u32} x {plain, adjacent} x {required, optional, many, fallback, hidden optional, hidden many} in two shapes (two flags + argument; argument alone), the three-item shape also with the argument under every metadata-only decoration (displayed fallback, group_help, with_group_help, custom_usage, hide_usage) and below a sub-command; abstract sentences = all sequences of <= max_occ occurrences (flag | argument with each value of the byte-string alphabet); for each sentence EVERY concrete spelling is generated (--n v, --n=v, -n v, -n=v, -nv, every alias, every clustering of adjacent flags, clusters ending in the argument with =/attached/detached value) and run; evaluation = one spelling run; non-trivial = sentence with more than one spelling".into()
+        "definitions = {4 name sets incl. 2-, 3- and 4-byte short names and non-ASCII longs} x {OsString, PathBuf, String, u32} x {plain, adjacent} x {required, optional, many, fallback, hidden optional, hidden many} in three shapes (two flags + argument; argument alone; three valued items with short names declared in descending / ascending / mixed order), the three-item shape also with the argument under every metadata-only decoration (displayed fallback, group_help, with_group_help, custom_usage, hide_usage) and below a sub-command; abstract sentences = all sequences of <= max_occ occurrences (flag | argument with each value of the byte-string alphabet); for each sentence EVERY concrete spelling is generated (--n v, --n=v, -n v, -n=v, -nv, every alias, every clustering of adjacent flags, clusters ending in the argument with =/attached/detached value) and run; plus one name declared twice (adjacent many + plain many in both declaration orders; adjacent optional + switch, the documented `--pkg=NAME` / bare `--pkg` idiom) over every vector of the token tree: the adjacent argument takes exactly the one-item spellings wherever they stand; evaluation = one spelling run; non-trivial = sentence with more than one spelling".into()
     }
     fn bounds(&self, tier: Tier) -> Value {
         json!({"occurrences_per_sentence": "<=3 (<=2 for the lone repeated argument)", "values": tier.pick("6 values (14 for OsString lone argument)", "14 values everywhere"), "value_alphabet": values_full()})
